@@ -632,7 +632,7 @@ func featureCase(k *run.K) {
 }
 
 func runAll(c *run.Ctx) {
-	for i := 0; i < c.N(8000, 200000); i++ {
+	for i := 0; i < c.N(16000, 200000); i++ {
 		c.Case("geom", i, geomCase)
 	}
 	for i := 0; i < c.N(5000, 100000); i++ {
